@@ -530,6 +530,11 @@ HEAVY = {
     "exp_gamma", "exp_inverse_gamma", "gamma", "half_student_t", "inverse_gamma", "lambert_w_normal", "multinomial",
     "non_central_chi2", "poisson", "power_spherical", "skellam", "student_t", "von_mises", "von_mises_fisher", "zipf",
 }
+# additionally expensive: several rejection loops per draw and/or while-loops inside log_prob (every
+# eager log_prob call compiles): fewer structures and cases in the quick tier
+VERY_HEAVY = {"beta_quotient", "beta_binomial", "dirichlet_multinomial", "non_central_chi2", "skellam", "von_mises_fisher",
+              "lambert_w_normal", "negative_binomial"}
+HEAVY |= VERY_HEAVY
 NEVER_EAGER_SAMPLER = {"beta_quotient", "skellam", "dirichlet_multinomial", "non_central_chi2"}  # > 5 s per eager draw
 
 
@@ -542,8 +547,12 @@ def structures(name, thorough):
     for vi, variant in enumerate(r["variants"]):
         if not variant["params"]:
             combos = [("s", None), ("s", ss_c)] if thorough else [("s", None)]
+        elif thorough and name in VERY_HEAVY:
+            combos = [("s", None), ("b", None), ("mix", None), ("b", ss_c)]
         elif thorough:
             combos = [("s", None), ("b", None), ("mix", None), ("b21", None), ("s", ss_c), ("b", ss_c), ("b", ss_t)]
+        elif name in VERY_HEAVY:
+            combos = [("s", None), ("b", None)] if vi == 0 else [("b", None)]
         elif vi == 0:
             combos = [("s", None), ("b", None), ("mix", None)]
             if name not in HEAVY:
@@ -743,7 +752,8 @@ def sampling_program(name, struct):
         g, args = target(gf, pos, kw)
         tr = g.simulate(k0, args)
         alts = {}
-        for fname, f in simulate_forms(gf, r, variant, names, A0, ss, k0, limit=1).items():
+        with_alt = name not in HEAVY or struct["shape"] == "s"
+        for fname, f in simulate_forms(gf, r, variant, names, A0, ss, k0, limit=1 if with_alt else 0).items():
             t = f()
             alts[fname] = (t.get_retval(), t.get_score())
         imp_n = g.importance(k1, C.n(), args) if name not in HEAVY else None
@@ -1149,8 +1159,8 @@ def shard_names(shard, nshards):
 def run(ctx):
     _selftest()
     jax = _lib()["jax"]
-    per = ctx.pick(3, 15)
     for name in shard_names(ctx.shard, ctx.nshards):
+        per = ctx.pick(2, 8) if name in VERY_HEAVY else ctx.pick(3, 15)
         for struct in structures(name, not ctx.quick):
 
             def chk(case):
@@ -1161,6 +1171,9 @@ def run(ctx):
             ctx.run_hypothesis(case_strategy(name, struct), chk, per, salt=salt)
         _PROGS.clear()
         jax.clear_caches()
+    import time
+
+    ctx.extra["worker_cpu_seconds"] = round(time.process_time(), 1)
     ctx.extra["wrappers_in_table"] = len(NAMES) if ctx.shard == 0 else 0
     ctx.extra["tolerance"] = "lib float32 vs TFP reference: 2e-5*k*max(1,M)+2e-4*|ref|; scipy float64: 5x that; same-key forms: values bit-equal"
 
